@@ -113,7 +113,7 @@ Definition date_to_days (year month day : Z) : res Z :=
 Definition year_doy_to_days (year doy : Z) (ignore_leap : bool) : res Z :=
   let? _ := validate_doy year doy in
   let doy := doy - 1 in
-  let doy := if ignore_leap && is_leap_year year && (60 <=? doy) then doy + 1 else doy in
+  let doy := if ignore_leap && is_leap_year year && (59 <=? doy) then doy + 1 else doy in
   Ok (ydoy0_to_days year doy).
 
 Definition days_to_doy (days : Z) : res Z :=
